@@ -13,6 +13,7 @@ head = sh(["git", "-C", "/repo", "rev-parse", "--short", "HEAD"]).stdout.strip()
 for sid in ids:
     d = os.path.join(ROOT, "seeded", sid); mp = os.path.join(d, "meta.json"); m = json.load(open(mp))
     prop = m.get("property", sid[:3])
+    if m.get("not_kept"): print(f"{sid}: not kept ({m['not_kept'][:80]}...)"); continue
     patch = os.path.join(d, "patch.rebased.diff"); reb = os.path.exists(patch)
     if not reb: patch = os.path.join(d, "patch.diff")
     if sh(["git", "-C", "/repo", "apply", "--check", patch]).returncode != 0:
